@@ -124,4 +124,525 @@ theorem einv_of_run {D : Decisions} (hD : D.ctlChecked = true) {m : Int} {es : L
     (h : (sys D m).run es = some s) : EInv s :=
   Sys.inv_of_run (sys D m) EInv (einv_init m) (fun _ _ _ hi hs => einv_step hD hi hs) h
 
+/-! ## S layer -/
+
+def AllRetry (o : Op) (l : List Res) : Prop := ∀ x ∈ l, retryable o x = true
+
+/-- read / write family and accept: the calls `transparent` and `blocking_never_eagain` speak about -/
+def Op.xfer (o : Op) : Bool := o.isRead || o.isWrite || o.isAccept
+
+/-- the value about to be returned is the last underlying call's; the earlier ones asked to retry -/
+def Transparent (o : Op) (syss : List Res) (r : Res) : Prop :=
+  ∃ rest, syss = r :: rest ∧ AllRetry o rest
+
+/-- why a shim may return EAGAIN -/
+def Justified (D : Decisions) (m : Int) (c : Call) (chk : Option Nat) (r : Res) : Prop :=
+  r = .err EAGAIN →
+    c.dw = true ∨ inRange m c.fd = false ∨ (∃ v, chk = some v ∧ sb D v = false) ∨
+    (c.op = .accept ∧ D.acceptLoops = false)
+
+def SOkC (D : Decisions) (m : Int) (syss : List Res) (chk : Option Nat) : Pc → Prop
+  | .idle => True
+  | .sbTop c => c.op.isRead = true ∧ c.dw = false ∧ inRange m c.fd = true ∧ AllRetry c.op syss
+  | .doSys c => AllRetry c.op syss
+  | .sbRetry c r => c.dw = false ∧ inRange m c.fd = true ∧ retryable c.op r = true ∧
+      Transparent c.op syss r
+  | .wantWait c => c.dw = false ∧ inRange m c.fd = true ∧ AllRetry c.op syss ∧
+      ∃ v, chk = some v ∧ sb D v = true
+  | .inWait c => inRange m c.fd = true ∧ AllRetry c.op syss
+  | .soErr c => c.op.xfer = false
+  | .setupFlag c n left r | .setupCtl c n left r =>
+      inRange m n = true ∧ (∀ x ∈ left, inRange m x = true) ∧ r ≠ .err EAGAIN ∧
+      (c.op.xfer = true → Transparent c.op syss r)
+  | .pipeCtl c todo both _ => (∀ x ∈ todo, inRange m x = true) ∧ (∀ x ∈ both, inRange m x = true) ∧ c.op.xfer = false
+  | .pipeFlag c todo _ => (∀ x ∈ todo, inRange m x = true) ∧ c.op.xfer = false
+  | .mChk c => c.op.xfer = false ∧ inRange m c.fd = true
+  | .mRmw c _ => c.op.xfer = false ∧ (D.boundsChecked = true → inRange m c.fd = true)
+  | .mSys c mg => c.op.xfer = false ∧ (mg = true → inRange m c.fd = true)
+  | .mGetMask c _ => c.op.xfer = false ∧ inRange m c.fd = true
+  | .clSec c | .clInSec c => c.op.xfer = false ∧ (D.boundsChecked = true → inRange m c.fd = true)
+  | .clStore c | .clSys c => c.op.xfer = false
+  | .retv c r => c.op.xfer = true → Transparent c.op syss r ∧ Justified D m c chk r
+  | .retFail _ => True
+
+def SOk (D : Decisions) (s : St) (f : Nat) : Prop := SOkC D s.maxFd (s.syss f) (s.lastChk f) (s.pc f)
+
+def SInv (D : Decisions) (s : St) : Prop := ∀ f, SOk D s f
+
+theorem sinv_init (D : Decisions) (m : Int) : SInv D (init m) := by
+  intro f; simp [SOk, SOkC, init]
+
+theorem step_maxFd {D : Decisions} {s s' : St} {e : Ev} (hst : step D s e = some s') : s'.maxFd = s.maxFd := by
+  cases e <;> simp only [step] at hst <;> (repeat' split at hst) <;> simp at hst <;> (try subst hst) <;> (try rfl)
+
+
+theorem allRetry_nil (o : Op) : AllRetry o [] := by intro x hx; cases hx
+
+theorem allRetry_cons {o : Op} {r : Res} {l : List Res} (h1 : retryable o r = true) (h2 : AllRetry o l) :
+    AllRetry o (r :: l) := by
+  intro x hx
+  cases hx with
+  | head => exact h1
+  | tail _ h => exact h2 x h
+
+theorem sok_frame {D : Decisions} {s s' : St} {g : Nat} (h : SOk D s g) (h0 : s'.maxFd = s.maxFd)
+    (h1 : s'.pc g = s.pc g) (h2 : s'.syss g = s.syss g) (h3 : s'.lastChk g = s.lastChk g) : SOk D s' g := by
+  unfold SOk at *; rw [h0, h1, h2, h3]; exact h
+
+theorem enter_ok (D : Decisions) (m : Int) (c : Call) : SOkC D m [] none (enter D m c) := by
+  obtain ⟨op, fd, dw⟩ := c
+  cases op <;> simp [enter, Op.isRead] <;>
+    (repeat' split) <;> simp_all [SOkC, Op.xfer, Op.isRead, Op.isWrite, Op.isAccept, allRetry_nil]
+
+theorem afterSys_ok (D : Decisions) (m : Int) (c : Call) (r : Res) (syss : List Res)
+    (h : AllRetry c.op syss)
+    (hacc : ∀ n, r = .ok n → c.op = .accept → inRange m (n : Int) = true) :
+    SOkC D m (r :: syss) none (afterSys D m c r (syss.length + 1)) := by
+  unfold afterSys
+  simp only []
+  repeat' split
+  all_goals (simp_all [SOkC, Transparent, Justified, Op.xfer, Op.isRead, Op.isWrite, Op.isAccept, Op.isConnect, retryable])
+  all_goals (obtain ⟨op, fd, dw⟩ := c; cases op <;> simp_all)
+
+theorem sokc_ite {D : Decisions} {m : Int} {l : List Res} {k : Option Nat} (p : Prop) [Decidable p] (a b : Pc) :
+    SOkC D m l k (if p then a else b) = if p then SOkC D m l k a else SOkC D m l k b := by
+  split <;> rfl
+
+theorem allRetry_of_transparent {o : Op} {l : List Res} {r : Res} (h : Transparent o l r)
+    (hr : retryable o r = true) : AllRetry o l := by
+  obtain ⟨rest, h1, h2⟩ := h
+  rw [h1]; exact allRetry_cons hr h2
+
+theorem transparent_cons {o : Op} {l : List Res} (r : Res) (h : AllRetry o l) : Transparent o (r :: l) r :=
+  ⟨l, rfl, h⟩
+
+theorem xfer_of_isRead {o : Op} (h : o.isRead = true) : o.xfer = true := by simp [Op.xfer, h]
+theorem xfer_of_isAccept {o : Op} (h : o.isAccept = true) : o.xfer = true := by simp [Op.xfer, h]
+theorem not_xfer_of_isSocketpair {o : Op} (h : o.isSocketpair = true) : o.xfer = false := by
+  cases o <;> simp_all [Op.xfer, Op.isRead, Op.isWrite, Op.isAccept, Op.isSocketpair]
+theorem not_xfer_of_isPipe {o : Op} (h : o.isPipe = true) : o.xfer = false := by
+  cases o <;> simp_all [Op.xfer, Op.isRead, Op.isWrite, Op.isAccept, Op.isPipe]
+theorem not_xfer_of_isSocket {o : Op} (h : o.isSocket = true) : o.xfer = false := by
+  cases o <;> simp_all [Op.xfer, Op.isRead, Op.isWrite, Op.isAccept, Op.isSocket]
+theorem not_xfer_of_isConnect {o : Op} (h : o.isConnect = true) : o.xfer = false := by
+  cases o <;> simp_all [Op.xfer, Op.isRead, Op.isWrite, Op.isAccept, Op.isConnect]
+
+theorem startSec_ok {D : Decisions} {m : Int} {l : List Res} {k : Option Nat} (s : St) (a : Nat) (fd : Int)
+    (h : SOkC D m l k (s.pc a)) : SOkC D m l k (startSec s a fd).2 := by
+  unfold startSec
+  split
+  · split <;> simp_all [SOkC]
+  · split <;> simp_all [SOkC]
+  · simp_all
+
+theorem not_xfer_of_create2 {o : Op} (h : (o.isSocketpair || o.isPipe) = true) : o.xfer = false := by
+  cases o <;> simp_all [Op.xfer, Op.isRead, Op.isWrite, Op.isAccept, Op.isSocketpair, Op.isPipe]
+
+theorem afterSbTrue_retry_ok {D : Decisions} {m : Int} {l : List Res} {k : Option Nat} {c : Call} {r : Res} {v : Nat}
+    (hs : SOkC D m l k (.sbRetry c r)) (hv : sb D v = true) : SOkC D m l (some v) (afterSbTrue D c false) := by
+  simp only [SOkC] at hs
+  obtain ⟨h1, h2, h3, h4⟩ := hs
+  have h5 := allRetry_of_transparent h4 h3
+  unfold afterSbTrue
+  split <;> simp_all [SOkC]
+
+theorem afterSbTrue_top_ok {D : Decisions} {m : Int} {l : List Res} {k : Option Nat} {c : Call} {v : Nat}
+    (hs : SOkC D m l k (.sbTop c)) (hv : sb D v = true) : SOkC D m l (some v) (afterSbTrue D c true) := by
+  simp only [SOkC] at hs
+  unfold afterSbTrue
+  split <;> simp_all [SOkC]
+
+theorem sbRetry_load_ok {D : Decisions} {m : Int} {l : List Res} {k : Option Nat} {c : Call} {r : Res} (v : Nat)
+    (hs : SOkC D m l k (.sbRetry c r)) :
+    SOkC D m l (some v) (if sb D v then afterSbTrue D c false else .retv c r) := by
+  split
+  · exact afterSbTrue_retry_ok hs ‹_›
+  · simp only [SOkC] at hs ⊢
+    intro _
+    exact ⟨hs.2.2.2, fun _ => Or.inr (Or.inr (Or.inl ⟨v, rfl, by simp_all⟩))⟩
+
+theorem sbTop_load_ok {D : Decisions} {m : Int} {l : List Res} {k : Option Nat} {c : Call} (v : Nat)
+    (hs : SOkC D m l k (.sbTop c)) :
+    SOkC D m l (some v) (if sb D v then afterSbTrue D c true else .doSys c) := by
+  split
+  · exact afterSbTrue_top_ok hs ‹_›
+  · simp only [SOkC] at hs ⊢; exact hs.2.2.2
+
+syntax "s_case " term : tactic
+set_option hygiene false in
+macro_rules
+  | `(tactic| s_case $x) => `(tactic|
+    (try simp only [step] at hst
+     repeat' split at hst
+     all_goals (first
+       | (simp at hst; done)
+       | (simp only [Option.some.injEq] at hst; subst hst; exact sok_frame hg rfl rfl rfl rfl)
+       | (simp only [Option.some.injEq] at hst; subst hst
+          by_cases hq : g = $x
+          · subst hq
+            simp only [SOk] at *
+            simp only [upd, ↓reduceIte] at *
+            simp only [*] at hg
+            first
+              | exact afterSbTrue_retry_ok hg (by simp_all)
+              | exact afterSbTrue_top_ok hg (by simp_all)
+              | exact enter_ok _ _ _
+              | exact afterSys_ok _ _ _ _ _ hg (by intro n hr ho; simp_all)
+          · simp_all [SOk, upd])
+       | (simp at hst; subst hst
+          by_cases hq : g = $x
+          · subst hq
+            first
+              | (simp_all [SOk, SOkC, upd]; done)
+              | (simp only [SOk] at *; simp_all [upd]; exact enter_ok _ _ _)
+              | (simp only [SOk] at *
+                 simp only [upd, ↓reduceIte, afterSbTrue, afterWait, sokc_ite] at *
+                 repeat' split
+                 all_goals (first
+                   | (simp_all [SOkC, Justified, allRetry_nil, allRetry_cons, transparent_cons, xfer_of_isRead, xfer_of_isAccept,
+                        not_xfer_of_isSocketpair, not_xfer_of_isPipe, not_xfer_of_isSocket, not_xfer_of_isConnect]; done)
+                   | (simp_all [SOkC, Justified]; exact allRetry_of_transparent (by assumption) (by assumption))
+                   | (simp_all [SOkC, Justified, Transparent, allRetry_nil, allRetry_cons, xfer_of_isRead, xfer_of_isAccept,
+                        not_xfer_of_isSocketpair, not_xfer_of_isPipe, not_xfer_of_isSocket, not_xfer_of_isConnect]; done))
+                 done)
+              | (simp only [SOk] at *; simp only [upd, ↓reduceIte] at *; exact startSec_ok _ _ _ ha)
+              | (simp only [SOk] at *; simp_all [upd, SOkC, not_xfer_of_create2]; done)
+          · simp_all [SOk, upd]))))
+
+set_option maxRecDepth 4000 in
+theorem sinv_step {D : Decisions} {s s' : St} {e : Ev} (h : SInv D s)
+    (hst : step D s e = some s') : SInv D s' := by
+  intro g
+  have hg := h g
+  cases e with
+  | call f c => have ha := h f; s_case f
+  | ret f op r => have ha := h f; s_case f
+  | fLoad f x v => have ha := h f; s_case f
+  | fOr f x old m => have ha := h f; s_case f
+  | fAnd f x old m => have ha := h f; s_case f
+  | fStore f x v => have ha := h f; s_case f
+  | sys f x r => have ha := h f; s_case f
+  | sys2 f a b r => have ha := h f; s_case f
+  | sysCtl f x r => have ha := h f; s_case f
+  | lkTake a x old => have ha := h a; s_case a
+  | lkPoll a x v => have ha := h a; s_case a
+  | ulLoad a x v => have ha := h a; s_case a
+  | ulStore a x v => have ha := h a; s_case a
+  | rEvents a x v => have ha := h a; s_case a
+  | wEvents a x v => have ha := h a; s_case a
+  | rAdded a x v => have ha := h a; s_case a
+  | wAdded a x v => have ha := h a; s_case a
+  | rBoth a x ev ad => have ha := h a; s_case a
+  | ctl a op x mask okk => have ha := h a; s_case a
+  | rWaiters a x hd => have ha := h a; s_case a
+  | wWaiters a x hd => have ha := h a; s_case a
+  | rScr a g' v =>
+    have ha := h a
+    cases hc : s.cur a with
+    | none => simp only [step, hc] at hst; s_case a
+    | some x => simp only [step, hc] at hst; s_case a
+  | wScr a g' v =>
+    have ha := h a
+    cases hc : s.cur a with
+    | none => simp [step, hc] at hst
+    | some x => simp only [step, hc] at hst; s_case a
+  | wSt a g' v =>
+    have ha := h a
+    cases hc : s.cur a with
+    | none => simp [step, hc] at hst
+    | some x => simp only [step, hc] at hst; s_case a
+
+
+theorem sinv_of_run {D : Decisions} {m : Int} {es : List Ev} {s : St}
+    (h : (sys D m).run es = some s) : SInv D s :=
+  Sys.inv_of_run (sys D m) (SInv D) (sinv_init D m) (fun _ _ _ hi hs => sinv_step hi hs) h
+
+/-! ## index invariant -/
+
+structure XInv (s : St) : Prop where
+  sec : ∀ fd, s.sec fd ≠ .free → inRange s.maxFd fd = true
+  tk : ∀ a fd t, s.tk a = some (fd, t) → inRange s.maxFd fd = true
+  opn : ∀ fd, s.isOpen fd = true → inRange s.maxFd fd = true
+
+theorem xinv_init (m : Int) : XInv (init m) := by
+  constructor <;> simp [init]
+
+/-- the descriptor with which an event indexes `fd_info[]` / `wait_info[]` -/
+def idx : Ev → Option Int
+  | .fLoad _ fd _ | .fOr _ fd _ _ | .fAnd _ fd _ _ | .fStore _ fd _ => some fd
+  | .lkTake _ fd _ | .lkPoll _ fd _ | .ulLoad _ fd _ | .ulStore _ fd _ => some fd
+  | .rEvents _ fd _ | .wEvents _ fd _ | .rAdded _ fd _ | .wAdded _ fd _ | .rBoth _ fd _ _ => some fd
+  | .rWaiters _ fd _ | .wWaiters _ fd _ => some fd
+  | _ => none
+
+syntax "x_case " term : tactic
+set_option hygiene false in
+macro_rules
+  | `(tactic| x_case $x) => `(tactic|
+    (try simp only [step] at hst
+     repeat' split at hst
+     all_goals (first
+       | (simp at hst; done)
+       | (simp only [Option.some.injEq] at hst; subst hst
+          exact ⟨hx.sec, hx.tk, hx.opn⟩)
+       | (simp at hst; subst hst
+          have h1 := hx.sec; have h2 := hx.tk; have h3 := hx.opn
+          constructor
+          · intro fd hfd
+            by_cases hq : fd = $x
+            · subst hq
+              first
+                | (simp_all [updI, upd, SOk, SOkC]; done)
+                | (simp_all [updI, upd, SOk, SOkC]; grind)
+            · first
+                | (simp_all [updI, upd, SOk, SOkC]; done)
+                | (simp_all [updI, upd, SOk, SOkC]; grind)
+          · intro a' fd t ht
+            first
+              | exact h2 _ _ _ ht
+              | (simp_all [updI, upd, SOk, SOkC]; done)
+              | (simp_all [updI, upd, SOk, SOkC]; grind)
+          · intro fd hfd
+            first
+              | exact h3 _ hfd
+              | (simp_all [updI, upd, SOk, SOkC]; done)
+              | (simp_all [updI, upd, SOk, SOkC]; grind)))))
+
+set_option maxRecDepth 4000 in
+theorem xinv_step {D : Decisions} (hb : D.boundsChecked = true) {s s' : St} {e : Ev} (hs : SInv D s) (hx : XInv s)
+    (hst : step D s e = some s') : XInv s' := by
+  cases e with
+  | call f c => x_case (0 : Int)
+  | ret f op r => x_case (0 : Int)
+  | fLoad f x v => x_case x
+  | fOr f x old m => x_case x
+  | fAnd f x old m => x_case x
+  | fStore f x v => x_case x
+  | sys f x r => x_case x
+  | sys2 f a b r => x_case a
+  | sysCtl f x r => x_case x
+  | lkTake a x old =>
+    have ha : ∀ c, s.pc a = .wantWait c → inRange s.maxFd c.fd = true := by
+      intro c hc; have := hs a; simp only [SOk, hc, SOkC] at this; exact this.2.1
+    have hb2 : ∀ c, s.pc a = .clSec c → inRange s.maxFd c.fd = true := by
+      intro c hc; have := hs a; simp only [SOk, hc, SOkC] at this; exact this.2 hb
+    x_case x
+  | lkPoll a x v => x_case x
+  | ulLoad a x v => x_case x
+  | ulStore a x v => x_case x
+  | rEvents a x v => x_case x
+  | wEvents a x v => x_case x
+  | rAdded a x v => x_case x
+  | wAdded a x v => x_case x
+  | rBoth a x ev ad => x_case x
+  | ctl a op x mask okk => x_case x
+  | rWaiters a x hd => x_case x
+  | wWaiters a x hd => x_case x
+  | rScr a g' v =>
+    cases hc : s.cur a with
+    | none => simp only [step, hc] at hst; x_case (0 : Int)
+    | some x => simp only [step, hc] at hst; x_case x
+  | wScr a g' v =>
+    cases hc : s.cur a with
+    | none => simp [step, hc] at hst
+    | some x => simp only [step, hc] at hst; x_case x
+  | wSt a g' v =>
+    cases hc : s.cur a with
+    | none => simp [step, hc] at hst
+    | some x => simp only [step, hc] at hst; x_case x
+
+theorem xinv_sinv_of_run {D : Decisions} (hb : D.boundsChecked = true) {m : Int} {es : List Ev} {s : St}
+    (h : (sys D m).run es = some s) : SInv D s ∧ XInv s :=
+  Sys.inv_of_run (sys D m) (fun s => SInv D s ∧ XInv s) ⟨sinv_init D m, xinv_init m⟩
+    (fun _ _ _ hi hst => ⟨sinv_step hi.1 hst, xinv_step hb hi.1 hi.2 hst⟩) h
+
+/-- facts about the actor's program counter that the index theorem needs -/
+theorem pc_inRange {D : Decisions} (hb : D.boundsChecked = true) {s : St} (hs : SInv D s) (f : Nat) :
+    (∀ c, s.pc f = .sbTop c → inRange s.maxFd c.fd = true) ∧
+    (∀ c r, s.pc f = .sbRetry c r → inRange s.maxFd c.fd = true) ∧
+    (∀ c r, s.pc f = .mGetMask c r → inRange s.maxFd c.fd = true) ∧
+    (∀ c r, s.pc f = .mRmw c r → inRange s.maxFd c.fd = true) ∧
+    (∀ c n l r, s.pc f = .setupFlag c n l r → inRange s.maxFd n = true) ∧
+    (∀ c t r, s.pc f = .pipeFlag c t r → ∀ x ∈ t, inRange s.maxFd x = true) ∧
+    (∀ c, s.pc f = .wantWait c → inRange s.maxFd c.fd = true) ∧
+    (∀ c, s.pc f = .clSec c → inRange s.maxFd c.fd = true) := by
+  have h := hs f
+  unfold SOk at h
+  refine ⟨?_, ?_, ?_, ?_, ?_, ?_, ?_, ?_⟩ <;> intros <;> simp_all [SOkC]
+
+syntax "i_case " term : tactic
+set_option hygiene false in
+macro_rules
+  | `(tactic| i_case $f) => `(tactic|
+    (simp only [idx, Option.some.injEq] at hi; subst hi
+     have hp := pc_inRange hb hs $f
+     simp only [step] at hst
+     repeat' split at hst
+     all_goals (first
+       | (simp at hst; done)
+       | (simp_all; done)
+       | (obtain ⟨p1, p2, p3, p4, p5, p6, p7, p8⟩ := hp; simp_all; done)
+       | (obtain ⟨p1, p2, p3, p4, p5, p6, p7, p8⟩ := hp; simp_all; grind)
+       | (apply h1; simp_all; done)
+       | (apply h1; intro hh; simp_all; done)
+       | grind)))
+
+set_option maxRecDepth 4000 in
+theorem index_step {D : Decisions} (hb : D.boundsChecked = true) {s s' : St} {e : Ev} (hs : SInv D s) (hx : XInv s)
+    (hst : step D s e = some s') {fd : Int} (hi : idx e = some fd) : inRange s.maxFd fd = true := by
+  have h1 := hx.sec; have h2 := hx.tk
+  cases e with
+  | fLoad f x v => i_case f
+  | fOr f x old m => i_case f
+  | fAnd f x old m => i_case f
+  | fStore f x v => i_case f
+  | lkTake a x old => i_case a
+  | lkPoll a x v => i_case a
+  | ulLoad a x v => i_case a
+  | ulStore a x v => i_case a
+  | rEvents a x v => i_case a
+  | wEvents a x v => i_case a
+  | rAdded a x v => i_case a
+  | wAdded a x v => i_case a
+  | rBoth a x ev ad => i_case a
+  | rWaiters a x hd => i_case a
+  | wWaiters a x hd => i_case a
+  | _ => simp [idx] at hi
+
+
+/-! ## invalid descriptors -/
+
+def Op.isCreate (o : Op) : Bool := o.isSocket || o.isSocketpair || o.isPipe
+
+/-- where a call on a descriptor outside [0, max_fd) can be -/
+def BOkC (m : Int) : Pc → Prop
+  | .idle | .doSys _ | .clSys _ | .mSys _ _ => True
+  | .retv c r => inRange m c.fd = false → c.op.isCreate = false → r = .err EBADF
+  | .sbTop c | .sbRetry c _ | .wantWait c | .inWait c | .soErr c | .mChk c | .mRmw c _ | .mGetMask c _
+  | .clSec c | .clInSec c | .clStore c | .retFail c => inRange m c.fd = true
+  | .setupFlag c _ _ _ | .setupCtl c _ _ _ | .pipeCtl c _ _ _ | .pipeFlag c _ _ =>
+      inRange m c.fd = true ∨ c.op.isCreate = true
+
+def BOk (s : St) (f : Nat) : Prop := BOkC s.maxFd (s.pc f)
+def BInv (s : St) : Prop := ∀ f, BOk s f
+
+theorem binv_init (m : Int) : BInv (init m) := by intro f; simp [BOk, BOkC, init]
+
+theorem bokc_ite {m : Int} (p : Prop) [Decidable p] (a b : Pc) :
+    BOkC m (if p then a else b) = if p then BOkC m a else BOkC m b := by
+  split <;> rfl
+
+theorem enter_bok {D : Decisions} (hb : D.boundsChecked = true) (m : Int) (c : Call) : BOkC m (enter D m c) := by
+  obtain ⟨op, fd, dw⟩ := c
+  cases op <;> simp [enter, Op.isRead, hb] <;> (repeat' split) <;> simp_all [BOkC]
+
+theorem afterSys_bok (D : Decisions) (m : Int) (c : Call) (r : Res) (n : Nat)
+    (hk : inRange m c.fd = false → r = .err EBADF) : BOkC m (afterSys D m c r n) := by
+  unfold afterSys
+  simp only []
+  repeat' split
+  all_goals (simp_all [BOkC, retryable, EBADF, EAGAIN, EINPROGRESS])
+  all_goals (try (by_cases hr : inRange m c.fd = true <;> simp_all [EBADF, EAGAIN, EINPROGRESS]))
+  all_goals (try (split at * <;> simp_all))
+
+theorem bok_frame {s s' : St} {g : Nat} (h : BOk s g) (h0 : s'.maxFd = s.maxFd) (h1 : s'.pc g = s.pc g) : BOk s' g := by
+  unfold BOk at *; rw [h0, h1]; exact h
+
+theorem startSec_bok {m : Int} (s : St) (a : Nat) (fd : Int) (h : BOkC m (s.pc a)) : BOkC m (startSec s a fd).2 := by
+  unfold startSec
+  split
+  · split <;> simp_all [BOkC]
+  · split <;> simp_all [BOkC]
+  · simp_all
+
+syntax "b_case " term : tactic
+set_option hygiene false in
+macro_rules
+  | `(tactic| b_case $x) => `(tactic|
+    (try simp only [step] at hst
+     repeat' split at hst
+     all_goals (first
+       | (simp at hst; done)
+       | (simp only [Option.some.injEq] at hst; subst hst; exact bok_frame hg rfl rfl)
+       | (simp only [Option.some.injEq] at hst; subst hst
+          by_cases hq : g = $x
+          · subst hq
+            simp only [BOk] at *
+            simp only [upd, ↓reduceIte] at *
+            first
+              | exact enter_bok hb _ _
+              | exact startSec_bok _ _ _ hg
+              | (apply afterSys_bok; intro hr; simp_all [kernelOk]; done)
+              | (apply afterSys_bok; intro hr; simp_all [kernelOk]; grind)
+          · simp_all [BOk, upd])
+       | (simp at hst; subst hst
+          by_cases hq : g = $x
+          · subst hq
+            simp only [BOk, SOk] at *
+            simp only [upd, ↓reduceIte, afterSbTrue, afterWait, bokc_ite] at *
+            repeat' split
+            all_goals (first
+              | (simp_all [BOkC, SOkC, kernelOk, Op.isCreate]; done)
+              | (simp_all [BOkC, SOkC, kernelOk, Op.isCreate]; grind))
+          · simp_all [BOk, upd]))))
+
+set_option maxRecDepth 4000 in
+theorem binv_step {D : Decisions} (hb : D.boundsChecked = true) {s s' : St} {e : Ev} (hs : SInv D s) (hx : XInv s)
+    (h : BInv s) (hk : kernelOk s e = true) (hst : step D s e = some s') : BInv s' := by
+  intro g
+  have hg := h g
+  have hop := hx.opn
+  cases e with
+  | call f c => b_case f
+  | ret f op r => b_case f
+  | fLoad f x v => have ha := hs f; b_case f
+  | fOr f x old m => have ha := hs f; b_case f
+  | fAnd f x old m => have ha := hs f; b_case f
+  | fStore f x v => have ha := hs f; b_case f
+  | sys f x r => have ha := hs f; b_case f
+  | sys2 f a b r => have ha := hs f; b_case f
+  | sysCtl f x r => have ha := hs f; b_case f
+  | lkTake a x old => b_case a
+  | lkPoll a x v => b_case a
+  | ulLoad a x v => b_case a
+  | ulStore a x v => have ha := hs a; b_case a
+  | rEvents a x v => b_case a
+  | wEvents a x v => b_case a
+  | rAdded a x v => b_case a
+  | wAdded a x v => b_case a
+  | rBoth a x ev ad => b_case a
+  | ctl a op x mask okk => b_case a
+  | rWaiters a x hd => b_case a
+  | wWaiters a x hd => b_case a
+  | rScr a g' v =>
+    have ha := hs a
+    cases hc : s.cur a with
+    | none => simp only [step, hc] at hst; b_case a
+    | some x => simp only [step, hc] at hst; b_case a
+  | wScr a g' v =>
+    cases hc : s.cur a with
+    | none => simp [step, hc] at hst
+    | some x => simp only [step, hc] at hst; b_case a
+  | wSt a g' v =>
+    cases hc : s.cur a with
+    | none => simp [step, hc] at hst
+    | some x => simp only [step, hc] at hst; b_case a
+
+
+theorem sysK_step {D : Decisions} {m : Int} {s s' : St} {e : Ev} (h : (sysK D m).step s e = some s') :
+    kernelOk s e = true ∧ step D s e = some s' := by
+  simp only [sysK] at h
+  split at h
+  · exact ⟨by assumption, h⟩
+  · simp at h
+
+theorem allinv_of_runK {D : Decisions} (hb : D.boundsChecked = true) {m : Int} {es : List Ev} {s : St}
+    (h : (sysK D m).run es = some s) : SInv D s ∧ XInv s ∧ BInv s ∧ s.maxFd = m :=
+  Sys.inv_of_run (sysK D m) (fun s => SInv D s ∧ XInv s ∧ BInv s ∧ s.maxFd = m)
+    ⟨sinv_init D m, xinv_init m, binv_init m, rfl⟩
+    (fun _ _ _ hi hst => by
+      obtain ⟨hk, hst⟩ := sysK_step hst
+      exact ⟨sinv_step hi.1 hst, xinv_step hb hi.1 hi.2.1 hst, binv_step hb hi.1 hi.2.1 hi.2.2.1 hk hst,
+             by rw [step_maxFd hst]; exact hi.2.2.2⟩) h
+
 end LibfiberVerif.IoShim
